@@ -175,7 +175,7 @@ func runHistory(cfg simCfg, pool []wdata, h []apiCall, reports bool) (lines []st
 					}
 				}
 				lines = append(lines, fmt.Sprintf(`{"ev":"run","nil":%d,"flags":%s,"panic":%q,"timeout":0,%s,%s}`, nilv, intsJSON(fl), r.pan, b.safePost(), b.safeQueries()))
-			case <-time.After(3 * time.Second):
+			case <-time.After(20 * time.Second):
 				lines = append(lines, `{"ev":"run","nil":0,"flags":[],"panic":"","timeout":1,"cycle":-1,"living":-1,"count":-1,"alive":[],"q":[],"d":[]}`)
 				return lines, true
 			}
